@@ -20,6 +20,7 @@ THEOREMS = [
     "C07.detect_partial_deferring",
     "C07.type_family_detected",
     "C07.type_family_detected_groups",
+    "C07.type_synonyms_quiet",
     "C07.default_change_detected",
     "C07.changed_str",
     "C07.changed_of_value",
